@@ -34,6 +34,7 @@ type G struct {
 	daemon  bool
 	name    string
 	started bool
+	stack   []string // this goroutine's interpreted call stack (diagnostics)
 }
 
 type abortG struct{}
@@ -157,6 +158,8 @@ func (s *Sched) transfer(next *G) {
 	if next == cur {
 		return
 	}
+	cur.stack = s.in.e.callStack
+	s.in.e.callStack = next.stack
 	s.cur = next
 	s.in.curG = next
 	if !next.started {
@@ -245,6 +248,7 @@ func (s *Sched) exitG(g *G) {
 	// hand the baton over; if nothing is runnable the main goroutine must be
 	// blocked forever -> deadlock is raised in its context? No: raise here.
 	next := s.pickNext(g)
+	s.in.e.callStack = next.stack
 	s.cur = next
 	s.in.curG = next
 	next.wake <- struct{}{}
@@ -271,11 +275,8 @@ func (in *Interp) goStmt(fr *frame, fn Value, args []Value, cc *ssa.CallCommon, 
 			}
 			s.finish(r)
 		}()
-		saved := in.e.callStack
-		in.e.callStack = nil
 		gfr := &frame{in: in, g: g, fn: fr.fn}
 		in.call(gfr, fn, args, cc, "go "+site)
-		in.e.callStack = saved
 		s.exitG(g)
 	}()
 	g.started = true
